@@ -815,6 +815,9 @@ class Sim:
                    [lv for lv in leaves if "_" in lv[0]]
             k, vals = rng.choice(pool)
             kw["style"] = nest(k, rng.choice(vals))
+            if rng.random() < 0.4:
+                # the label given in dictionary form must win over the automatic iteration (wave 10, C18_m)
+                kw["style"]["label"] = rng.choice(["mine", "b_01", "x7"])
         if rng.random() < 0.1:
             kw["style_" + rng.choice(["path", "description", "legend", "model3d"])] = {"$substyle": None}
             k_ = [k for k in kw if isinstance(kw[k], dict) and "$substyle" in kw[k]][0]
